@@ -15,6 +15,7 @@ import (
 	"io"
 	"math/rand"
 	"net"
+	"os"
 	"runtime"
 	"sync"
 	"sync/atomic"
@@ -492,7 +493,36 @@ func runConn(c fcase, rng *rand.Rand) map[string]any {
 	if shorts == 0 && pos != len(wire) {
 		lossless = false
 	}
-	return map[string]any{"write_ok": writeOK, "lossless": lossless && !silent, "shorts": shorts, "end": endErr, "complete": complete, "pos": pos, "len": len(wire)}
+	// read deadlines: every second Read is issued with a deadline that has already expired while chunks are queued; whatever it
+	// returns (data or the deadline error), no byte may be lost: the concatenation of all reads is the wire
+	sc2 := newScripted(wire, c.Script, 3, rng)
+	cn2 := rwc.NewConn(context.Background(), sc2, nil, nil, 4)
+	var got2 []byte
+	deadlineOK, deadlineErrs := true, 0
+	for i := 0; i < 4*len(wire)+64; i++ {
+		buf := make([]byte, 8192)
+		if i%2 == 0 {
+			time.Sleep(50 * time.Microsecond)
+			_ = cn2.SetReadDeadline(time.Now().Add(-time.Second))
+		} else {
+			_ = cn2.SetReadDeadline(time.Now().Add(5 * time.Second))
+		}
+		n, err := cn2.Read(buf)
+		got2 = append(got2, buf[:n]...)
+		if errors.Is(err, os.ErrDeadlineExceeded) {
+			deadlineErrs++
+			continue
+		}
+		if err != nil && err != io.ErrShortBuffer {
+			break
+		}
+	}
+	cn2.Close()
+	if !bytes.Equal(got2, wire) {
+		deadlineOK = false
+	}
+	return map[string]any{"write_ok": writeOK, "lossless": lossless && !silent, "shorts": shorts, "end": endErr, "complete": complete, "pos": pos, "len": len(wire),
+		"deadline_ok": deadlineOK, "deadline_errs": deadlineErrs, "deadline_got": len(got2)}
 }
 
 // partialWriter accepts at most max bytes per Write call (a short write without error, as a stream under back-pressure may do);
